@@ -131,15 +131,23 @@ def run(tier, seed, replay):
 
     # (F1) design, exhaustive over the boundary alphabets of all window sizes (the size is chosen by the constructor = Init),
     #      up to MaxAcc accepted counters per epoch (refused calls are free)
-    add("filter-design", "design", module="MCSlidingWindow", cfg="MCSlidingWindow.cfg",
-        consts=filter_consts(SIZES, B, ring, 6 if big else 3, 1, not big, False),
-        workers=10 if big else 6, timeout=7000 if big else 3000, heap="12g" if big else "4g")
+    if big:
+        # depth 6 for the four sizes with a two-block ring, depth 5 for the larger rings (their alphabets are larger); the real
+        # filter is taken to depth 6 for every size by the ghost-set enumeration below
+        small = [1, 2, 63, 64]
+        add("filter-design-6", "design", module="MCSlidingWindow", cfg="MCSlidingWindow.cfg",
+            consts=filter_consts(small, B, ring, 6, 1, False, False), workers=6, timeout=14000, heap="8g")
+        add("filter-design-5", "design", module="MCSlidingWindow", cfg="MCSlidingWindow.cfg",
+            consts=filter_consts([S for S in SIZES if S not in small], B, ring, 5, 1, False, False), workers=6, timeout=14000, heap="8g")
+    else:
+        add("filter-design", "design", module="MCSlidingWindow", cfg="MCSlidingWindow.cfg",
+            consts=filter_consts(SIZES, B, ring, 3, 1, True, False), workers=6, timeout=3000, heap="4g")
     # (F2) replay graph: every state with <= n accepted counters, every call from it
     if big:
         add("filter-graph-a", "fgraph", module="MCSlidingWindow", cfg="MCSlidingWindow.cfg",
-            consts=filter_consts([1, 2, 64, 128], B, ring, 3, 1, False, True), workers=2, timeout=7000, heap="6g")
+            consts=filter_consts([1, 2, 64, 128], B, ring, 3, 1, False, True), workers=2, timeout=14000, heap="6g")
         add("filter-graph-b", "fgraph", module="MCSlidingWindow", cfg="MCSlidingWindow.cfg",
-            consts=filter_consts([63, 65, 256, 1000], B, ring, 2, 1, False, True), workers=2, timeout=7000, heap="6g")
+            consts=filter_consts([63, 65, 256, 1000], B, ring, 2, 1, False, True), workers=2, timeout=14000, heap="6g")
     else:
         add("filter-graph", "fgraph", module="MCSlidingWindow", cfg="MCSlidingWindow.cfg",
             consts=filter_consts(SIZES, B, ring, 2, 0, False, True), workers=3, timeout=3000, heap="4g")
@@ -147,7 +155,7 @@ def run(tier, seed, replay):
     simc = filter_consts(SIZES, B, ring, 1000, 4, False, False, rel=lambda S: rel_walk(S, B, ring[S]))
     simc["QueriesOf"] = tla_fun({S: [0] for S in SIZES}, tla_set)      # the one IsOk query that ends (and prints) a trace
     simc["Len"] = 120 if big else 80
-    add("filter-sim", "fsim", module="SimSlidingWindow", cfg="SimSlidingWindow.cfg", consts=simc, workers=8 if big else 2, timeout=7000 if big else 3000,
+    add("filter-sim", "fsim", module="SimSlidingWindow", cfg="SimSlidingWindow.cfg", consts=simc, workers=8 if big else 2, timeout=14000 if big else 3000,
         simulate="num=%d" % (120 if big else 16), depth=simc["Len"] + 1, seed=seed, heap="6g", keep_out=True)
 
     dl_srv = "{1,90,93,180,%d}" % (3 * k["Nat"])
@@ -163,19 +171,19 @@ def run(tier, seed, replay):
             consts=sess_consts(k, "client", True, MaxPid=2, MaxPack=3, MaxAdv=3, Deltas="{179,180}"), workers=2, timeout=3000, heap="4g")
     else:
         add("server-design", "design", module="MCUdpSession", cfg="MCUdpSession.cfg",
-            consts=sess_consts(k, "server", CSess='{"c1","c2"}', MaxPid=3, MaxPack=4, MaxAdv=3, Skews="{0,30}", Deltas=dl_srv),
-            workers=4, timeout=7000, heap="8g")
+            consts=sess_consts(k, "server", CSess='{"c1","c2"}', MaxPid=2, MaxPack=4, MaxAdv=3, Skews="{0,30}", Deltas=dl_srv),
+            workers=4, timeout=14000, heap="8g")
         add("server-design-w3", "design", module="MCUdpSession", cfg="MCUdpSession.cfg",
             consts=sess_consts(k, "server", W=3, MaxPid=5, MaxPack=5, MaxAdv=2, Skews="{0}", Deltas="{93,%d}" % (3 * k["Nat"])),
-            workers=3, timeout=7000, heap="6g")
+            workers=3, timeout=14000, heap="6g")
         add("client-design", "design", module="MCUdpSession", cfg="MCUdpSession.cfg",
-            consts=sess_consts(k, "client", MaxPid=2, MaxPack=4, MaxAdv=4, Deltas="{1,93,179,180}"), workers=6, timeout=7000, heap="10g")
+            consts=sess_consts(k, "client", MaxPid=2, MaxPack=4, MaxAdv=4, Deltas="{1,93,179,180}"), workers=6, timeout=14000, heap="10g")
         add("client-design-skew", "design", module="MCUdpSession", cfg="MCUdpSession.cfg",
-            consts=sess_consts(k, "client", MaxPid=2, MaxPack=3, MaxAdv=4, Skews="{0,30}", Deltas="{1,179,180}"), workers=3, timeout=7000, heap="6g")
+            consts=sess_consts(k, "client", MaxPid=2, MaxPack=3, MaxAdv=4, Skews="{0,30}", Deltas="{1,179,180}"), workers=3, timeout=14000, heap="6g")
         add("server-graph", "sgraph", module="MCUdpSession", cfg="MCUdpSession.cfg",
-            consts=sess_consts(k, "server", True, MaxPid=3, MaxPack=3, MaxAdv=2, Skews="{0,30}", Deltas=dl_srv), workers=2, timeout=7000, heap="6g")
+            consts=sess_consts(k, "server", True, MaxPid=3, MaxPack=3, MaxAdv=2, Skews="{0,30}", Deltas=dl_srv), workers=2, timeout=14000, heap="6g")
         add("client-graph", "sgraph", module="MCUdpSession", cfg="MCUdpSession.cfg",
-            consts=sess_consts(k, "client", True, MaxPid=2, MaxPack=3, MaxAdv=3, Deltas="{93,179,180}"), workers=2, timeout=7000, heap="6g")
+            consts=sess_consts(k, "client", True, MaxPid=2, MaxPack=3, MaxAdv=3, Deltas="{93,179,180}"), workers=2, timeout=14000, heap="6g")
     add("both-sim", "ssim", module="MCUdpSession", cfg="MCUdpSession.cfg",
         consts=sess_consts(k, "both", True, CSess='{"c1","c2"}', MaxPid=4, MaxPack=12, MaxAdv=8, Skews="{-30,0,30}",
                            Deltas="{1,2,87,90,93,177,179,180,183,186}"),
@@ -287,7 +295,7 @@ def run(tier, seed, replay):
         buckets[i].append(j)
         load[i] += len(j["ids"]) ** j["depth"]
     t0 = time.time()
-    outs = common.run_parallel(binary, "TestFilterDFS", [{"seed": seed, "params": {"dfs": b}} for b in buckets if b], 7000)
+    outs = common.run_parallel(binary, "TestFilterDFS", [{"seed": seed, "params": {"dfs": b}} for b in buckets if b], 14000)
     vlib.log("[dfs] %d jobs depth %d %.1fs" % (len(dfs), depth, time.time() - t0))
     seqs = verdicts = 0
     for res, out, rc in outs:
